@@ -203,6 +203,106 @@ def random_target(rng, net, drop=0.0, zero=0.0, absent_topology=False):
     return tg
 
 
+def corners_of(net):
+    """{(motif id, vertex): [edge index ...]}: the edges of one vertex inside one motif (what get_all_edges returns)"""
+    out = {}
+    for k, (a, b, _t, m) in enumerate(net["edges"]):
+        out.setdefault((m, a), []).append(k)
+        out.setdefault((m, b), []).append(k)
+    return out
+
+
+def grid_target(rng, net, drop=0.0, zero=0.0):
+    """symmetric dyadic target whose support is, per topology t, the full grid over the keys jd(v) - e_i for every
+    end point v of a t-edge and EVERY slot i of a topology that shares a corner with t (t itself included): the keys a
+    WRONG slot would produce (C12-r3-3: topology index hoisted out of the per-edge loop; d-outer slot decremented for a
+    d-inner edge) are then PRESENT with positive weight instead of raising the KeyError that silently rejects the swap.
+    As in random_target a random symmetric subset of the pairings absent from the network is deleted / set to 0.0."""
+    nt = len(net["names"])
+    co = [{t} for t in range(nt)]
+    for ks in corners_of(net).values():
+        ts = {net["edges"][k][2] for k in ks}
+        for t in ts:
+            co[t] |= ts
+    keys = [set() for _ in range(nt)]
+    present = [set() for _ in range(nt)]
+    for a, b, t, _m in net["edges"]:
+        for v in (a, b):
+            for i in co[t]:
+                keys[t].add(tuple(excess(net["jds"][v], i)))
+        ka, kb = tuple(excess(net["jds"][a], t)), tuple(excess(net["jds"][b], t))
+        present[t].add((ka, kb))
+        present[t].add((kb, ka))
+    tg = []
+    for t in range(nt):
+        items = []
+        ks = sorted(keys[t])
+        if len(ks) > 28:      # keep the wire small: the proper keys and a sample of the others
+            proper = {k for pr in present[t] for k in pr}
+            rest = [k for k in ks if k not in proper]
+            ks = sorted(proper | set(rng.sample(rest, max(0, min(len(rest), 28 - len(proper))))))
+        for i, k1 in enumerate(ks):
+            for k2 in ks[i:]:
+                w = Fraction(rng.randint(1, 15), 16)
+                if (k1, k2) not in present[t]:
+                    u = rng.random()
+                    if u < drop:
+                        continue
+                    if u < drop + zero:
+                        w = Fraction(0)
+                items.append([list(k1 + k2), [w.numerator, w.denominator]])
+                if k1 != k2:
+                    items.append([list(k2 + k1), [w.numerator, w.denominator]])
+        tg.append(items)
+    return tg
+
+
+def mixed_queries(net, rng, limit):
+    """method-level queries aimed at MIXED corners (one vertex's edges inside one motif carry >= 2 topologies, e.g. a
+    diamond's outer + inner edge): every pair of such corners of two different motifs with the same topology
+    multiset, every choice of the drawn edges; sampled down to `limit`"""
+    cs = []
+    for (m, v), ks in corners_of(net).items():
+        ts = sorted(net["edges"][k][2] for k in ks)
+        if len(set(ts)) >= 2:
+            cs.append((m, v, ks, ts))
+    qs = []
+    for (m0, u0, k0, t0), (m1, v0, k1, t1) in itertools.product(cs, cs):
+        if m0 == m1 or u0 == v0 or t0 != t1:
+            continue
+        for a in k0:
+            for b in k1:
+                qs.append((u0, net["edges"][a][:2], v0, net["edges"][b][:2]))
+    if len(qs) > limit:
+        qs = rng.sample(qs, limit)
+    return [[u0, list(e0), v0, list(e1), [rng.randrange(0, 64), 64]] for u0, e0, v0, e1 in qs]
+
+
+DIAMOND_NAMES = [["d-outer", "d-inner"], ["d-inner", "d-outer"], ["2-clique", "d-outer", "d-inner"],
+                 ["d-inner", "3-clique", "d-outer"], ["d-outer", "2-clique", "d-inner", "3-clique"]]
+
+
+def diamond_net(rng):
+    """clean network made mostly of diamonds (their position-0 and position-2 corners mix d-outer and d-inner edges),
+    2-4 topology names in varying order, vertices in several diamonds at different positions (many joint degrees);
+    12-26 vertices and 0.4-0.55 motifs per vertex: enough room for suitable corner pairs"""
+    names = rng.choice(DIAMOND_NAMES)
+    kinds = ["dia"] * 4 + (["2c"] if "2-clique" in names else []) + (["3c"] if "3-clique" in names else [])
+    net = None
+    for _ in range(20):
+        n = rng.randint(12, 26)
+        net = random_clean_network(rng, n, kinds, max(3, int(n * rng.uniform(0.4, 0.55))), names)
+        if net is not None and sum(1 for e in net["edges"] if names[e[2]] == "d-inner") >= 2:
+            return net
+    return net
+
+
+# pairings absent from the network are deleted / zeroed SPARINGLY in the mixed-corner cases: a swap is only decided by
+# random.random() when all 4-6 looked-up pairings have positive weight; a wrong key is exposed either by the Metropolis
+# ratio (any weights) or, when the true pairing is one of the deleted ones, by an edge created with zero weight
+MIXED_DROP, MIXED_ZERO = 0.4, 0.3
+
+
 _DECOYS = []
 
 
@@ -928,10 +1028,14 @@ def small_net(rng, flavour=None):
     return random_clean_network(rng, n, ["2c", "3c", "c4", "dia", "dia"], rng.randint(3, max(3, n // 2)), NAMES_ALL)
 
 
-def gen_run(rng, drop, zero, big=False):
-    net = small_net(rng)
-    tg = random_target(rng, net, drop=drop * rng.random(), zero=zero * rng.random(),
-                       absent_topology=(drop > 0 and rng.random() < 0.2))
+def gen_run(rng, drop, zero, big=False, mixed=False):
+    if mixed:
+        net = diamond_net(rng)
+        tg = grid_target(rng, net, drop=drop * MIXED_DROP * rng.random(), zero=zero * MIXED_ZERO * rng.random())
+    else:
+        net = small_net(rng)
+        tg = random_target(rng, net, drop=drop * rng.random(), zero=zero * rng.random(),
+                           absent_topology=(drop > 0 and rng.random() < 0.2))
     sl = rng.choice([0, 1, 2, 3, 5, 5, 25, 25, 25, 25, None, None])
     cl = rng.choice([0, 1, 2, 5, 10, 30, 30, 30, None])
     ch, ra = rand_scripts(rng, rng.choice([40, 150, 400]) * (3 if big else 1), rng.choice([3, 20, 60]))
@@ -967,6 +1071,14 @@ def gen_methods(rng, drop, zero, nq):
     net = small_net(rng)
     tg = random_target(rng, net, drop=drop * rng.random(), zero=zero * rng.random())
     return {"kind": "methods", "net": net, "tg": tg, "queries": method_queries(net, rng, nq), "valid": True}
+
+
+def gen_mixed_methods(rng, drop, zero, nq):
+    """diamond networks + grid targets + queries aimed at mixed-topology corners (plus a few undirected ones)"""
+    net = diamond_net(rng)
+    tg = grid_target(rng, net, drop=drop * MIXED_DROP * rng.random(), zero=zero * MIXED_ZERO * rng.random())
+    qs = mixed_queries(net, rng, nq) + method_queries(net, rng, max(4, nq // 4))
+    return {"kind": "methods", "net": net, "tg": tg, "queries": qs, "valid": True}
 
 
 def gen_invalid(rng):
@@ -1056,6 +1168,11 @@ def generate(rng, tier, drop, zero):
         yield gen_run(rng, drop, zero)
     for _ in range(40 if q else 300):
         yield gen_methods(rng, drop, zero, 80 if q else 200)
+    # mixed-topology corners (diamond outer + inner) with grid targets: wrong-slot keys are present in the target
+    for _ in range(24 if q else 200):
+        yield gen_mixed_methods(rng, drop, zero, 60 if q else 150)
+    for _ in range(24 if q else 200):
+        yield gen_run(rng, drop, zero, mixed=True)
     for _ in range(6 if q else 40):
         yield gen_invalid(rng)
     for _ in range(10 if q else 60):
@@ -1076,6 +1193,7 @@ def search_batches(rng, drop, zero):
     yield [gen_long(rng, 40, 300, ["2c", "3c"], NAMES_CLIQUES, drop, zero) for _ in range(4)]
     yield [gen_long(rng, 40, 300, ["2c", "3c", "c4", "dia"], NAMES_ALL, drop, zero) for _ in range(4)]
     yield [gen_methods(rng, drop, zero, 400) for _ in range(40)]
+    yield [gen_mixed_methods(rng, drop, zero, 300) for _ in range(40)]
     yield [gen_run(rng, drop, zero, big=True) for _ in range(200)]
     yield [gen_long(rng, 150, 800, ["2c", "3c"], NAMES_CLIQUES, drop, zero) for _ in range(2)]
     yield [gen_long(rng, 600, 2000, ["2c", "3c"], NAMES_CLIQUES, drop, zero)]
